@@ -43,6 +43,17 @@ class Record:
         self.__dict__.update(fields)
 
 
+class SizedRecord(Record):
+    """a Record that also answers len() (an ElementTree element: number of children)"""
+
+    def __init__(self, n, isa=(), **fields):
+        Record.__init__(self, isa, **fields)
+        self._n = n
+
+    def __len__(self):
+        return self._n
+
+
 class ClassEval:
     MAX_DEPTH = 12
     MAX_WHILE = 200
@@ -179,14 +190,27 @@ class ClassEval:
             return any(n_.split(".")[-1] in local[node.args[0].id]._isa for n_ in names)
         if isinstance(fn, ast.Name) and fn.id in self.function_models and (local is None or fn.id not in local):
             return self.function_models[fn.id](*[ev(a) for a in node.args])
+        if t in ("hasattr", "getattr") and len(node.args) >= 2 and isinstance(node.args[0], ast.Name) and isinstance((local or {}).get(node.args[0].id), Record):
+            nm_ = ev(node.args[1])
+            rec_ = local[node.args[0].id]
+            if isinstance(nm_, str) and not nm_.startswith("_"):
+                if t == "hasattr":
+                    return hasattr(rec_, nm_)
+                if hasattr(rec_, nm_):
+                    return getattr(rec_, nm_)
+                if len(node.args) == 3:
+                    return ev(node.args[2])
+        if t == "len" and len(node.args) == 1 and isinstance(node.args[0], ast.Name) and isinstance((local or {}).get(node.args[0].id), SizedRecord):
+            return len(local[node.args[0].id])
         if t == "isinstance" and len(node.args) == 2:
             types_ = {"bytes": bytes, "str": str, "text_type": str, "int": int, "dict": dict, "list": list, "tuple": tuple, "bool": bool, "float": float,
                       "binary_type": bytes}
             names = [norm(e).split(".")[-1] for e in (node.args[1].elts if isinstance(node.args[1], (ast.Tuple, ast.List)) else [node.args[1]])]
             if all(n_ in types_ for n_ in names):
                 v_ = ev(node.args[0])
-                if not isinstance(v_, Record):
-                    return isinstance(v_, tuple(types_[n_] for n_ in names))
+                if isinstance(v_, Record):
+                    return False            # a model object is none of the builtin types
+                return isinstance(v_, tuple(types_[n_] for n_ in names))
         # a function of this module, or of a package module imported by name (`_utils.isSurrogatePair(x)`)
         if isinstance(fn, ast.Name) and fn.id in getattr(self.mod, "functions", {}) and (local is None or fn.id not in local) and not node.keywords:
             return self.callf(self.mod, fn.id, [ev(a) for a in node.args])
@@ -265,6 +289,8 @@ class ClassEval:
             if callable(fobj) and not isinstance(fobj, type):
                 seqs = [list(ev(a)) for a in node.args[1:]]
                 return list(map(fobj, *seqs)) if fn.id == "map" else [x for x in seqs[0] if fobj(x)]
+        if t in ("OrderedDict", "collections.OrderedDict") and not node.args and not node.keywords:
+            return {}               # dicts keep insertion order
         if isinstance(fn, ast.Name) and fn.id == "format" and len(node.args) == 2:
             return format(ev(node.args[0]), ev(node.args[1]))
         return NotImplemented
